@@ -25,6 +25,10 @@ St(a, code) == ActionCode(a) * 16 + code
 NotPerformed(a) == St(a, 15)
 IsSuccess(status) == status % 16 = 0
 
+\* one level of nesting: the directory a name lives in ("" = the root itself)
+FsParent(n) == IF n = "d1/x" THEN "d1" ELSE IF n = "d2/y" THEN "d2" ELSE ""
+FsChildren(fs, d) == {m \in DOMAIN fs : FsParent(m) = d}
+
 FsKind(fs, n) == IF n \in DOMAIN fs THEN fs[n][1] ELSE "a"
 FsIsFile(fs, n) == FsKind(fs, n) = "f"
 FsIsDir(fs, n) == FsKind(fs, n) = "d"
@@ -32,6 +36,10 @@ FsExists(fs, n) == n \in DOMAIN fs
 FsLen(fs, n) == fs[n][2]
 FsPut(fs, n, v) == [m \in (DOMAIN fs) \cup {n} |-> IF m = n THEN v ELSE fs[m]]
 FsDel(fs, n) == [m \in (DOMAIN fs) \ {n} |-> fs[m]]
+\* remove_dir_all: the directory and everything in it
+FsDelDir(fs, d) == [m \in (DOMAIN fs) \ ({d} \cup FsChildren(fs, d)) |-> fs[m]]
+\* a new entry needs an existing directory to live in
+FsParentOk(fs, n) == FsParent(n) = "" \/ (FsParent(n) \in DOMAIN fs /\ fs[FsParent(n)][1] = "d")
 
 Apply(fs, rq) ==
   LET a == rq.a
@@ -39,13 +47,13 @@ Apply(fs, rq) ==
       q == rq.f2
       same(code) == [fs |-> fs, st |-> St(a, code)]
   IN CASE a = "CreateFile" ->
-            IF ~FsExists(fs, p) THEN [fs |-> FsPut(fs, p, <<"f", 0>>), st |-> St(a, 0)] ELSE same(1)
+            IF ~FsExists(fs, p) /\ FsParentOk(fs, p) THEN [fs |-> FsPut(fs, p, <<"f", 0>>), st |-> St(a, 0)] ELSE same(1)
        [] a = "DeleteFile" ->
             IF FsIsFile(fs, p) THEN [fs |-> FsDel(fs, p), st |-> St(a, 0)] ELSE same(1)
        [] a = "RenameFile" ->
             IF ~FsIsFile(fs, p) THEN same(1)
             ELSE IF FsIsFile(fs, q) THEN same(2)
-            ELSE IF FsExists(fs, q) THEN same(3)          \* the new name is a directory
+            ELSE IF FsExists(fs, q) \/ ~FsParentOk(fs, q) THEN same(3)   \* a directory is in the way / nowhere to put it
             ELSE [fs |-> FsPut(FsDel(fs, p), q, fs[p]), st |-> St(a, 0)]
        [] a = "AppendFile" ->
             IF ~FsIsFile(fs, p) THEN same(1)
@@ -56,13 +64,13 @@ Apply(fs, rq) ==
             ELSE IF ~FsIsFile(fs, q) THEN same(2)
             ELSE [fs |-> FsPut(fs, p, <<"f", FsLen(fs, q)>>), st |-> St(a, 0)]
        [] a = "CreateDirectory" ->
-            IF FsExists(fs, p) THEN same(1) ELSE [fs |-> FsPut(fs, p, <<"d", 0>>), st |-> St(a, 0)]
+            IF FsExists(fs, p) \/ ~FsParentOk(fs, p) THEN same(1) ELSE [fs |-> FsPut(fs, p, <<"d", 0>>), st |-> St(a, 0)]
        [] a = "RemoveDirectory" ->
-            IF FsIsDir(fs, p) THEN [fs |-> FsDel(fs, p), st |-> St(a, 0)] ELSE same(1)
+            IF FsIsDir(fs, p) THEN [fs |-> FsDelDir(fs, p), st |-> St(a, 0)] ELSE same(1)
        [] a = "DenyFile" ->
             IF FsIsFile(fs, p) THEN [fs |-> FsDel(fs, p), st |-> St(a, 0)] ELSE same(2)
        [] OTHER ->
-            IF FsIsDir(fs, p) THEN [fs |-> FsDel(fs, p), st |-> St(a, 0)] ELSE same(2)
+            IF FsIsDir(fs, p) THEN [fs |-> FsDelDir(fs, p), st |-> St(a, 0)] ELSE same(2)
 
 \* in order; after the first failure the rest is not performed    recv.rs:808-836
 RunRequests(fs, reqs) ==
